@@ -51,6 +51,10 @@ def make_cases(tier, seed):
 
 def run(tier, seed):
     cases = make_cases(tier, seed)
+    # one write to one output is rejected (ENOSPC, once) in histories that write blocks to three outputs in turn: every OTHER
+    # non-empty output - in particular the one a throwing rotate_output() has already switched to - must still be one document
+    from . import c13
+    fvs, fruns = c13.faulted_rotations(tier, seed, prop=PROP, names=('rot3',), tag='c02f')
     er = ExportRun(PROP, cases, 'c02', need_lib_read=False)
     try:
         empties = dict(stats=0, cp=0, sig=0, rpd=0, ext=0, mmd=0, rrlist=0)
@@ -72,6 +76,7 @@ def run(tier, seed):
                 if bp.get('cp') == {}: empties['cp'] += 1
         obs = dict(er.obs)
         obs['present_but_empty_structures_submitted'] = empties
+        obs['histories_with_one_rejected_write_whose_other_outputs_were_parsed'] = fruns
         obs['documents_parsed_strictly'] = sum(len(pc['docs']) for pc in er.per_case if pc)
         obs['histories_with_unrepresentable_record_times'] = sum(1 for c in cases if c['id'].startswith('x'))
         obs['api_calls_that_threw_in_those_and_in_tick_rate_0_histories'] = sum(1 for pc in er.per_case if pc and pc['case'].get('tolerant') for e in pc['res']['log'] if 'exc' in e)
@@ -80,7 +85,7 @@ def run(tier, seed):
                    rule='seeded exporter API histories (buffer_*/write_block/dblock/rotate/addbp/setactive/destroy, all compressions, name+fd); '
                         'non-trivial = at least one output with >= 1 block was closed and strictly parsed; distinct by SHA-256 of the case',
                    samples=[sample_of(c) for c in cases[:2]], observed=obs)
-        return dict(violations=er.violations, coverage=cov,
+        return dict(violations=er.violations + fvs, coverage=cov,
                     assumptions=['independent strict CBOR/RFC 8618 parser in vlib/cbor.py + vlib/cdns_schema.py is the oracle',
                                  'array members declared [+ x] in the RFC CDDL are accepted when empty (the property does not demand one-or-more)'])
     finally:
